@@ -216,7 +216,22 @@ func runC11InWorker(c c11Case) error {
 	if i != len(in) {
 		return fmt.Errorf("%d records encoded, file holds %d", len(in), i)
 	}
-	// decode side
+	// decode side (the background collector, if the case has one, runs through it as well)
+	if c.BackgroundGC {
+		stop2, done2 := make(chan struct{}), make(chan struct{})
+		go func() {
+			defer close(done2)
+			for {
+				select {
+				case <-stop2:
+					return
+				default:
+					runtime.GC()
+				}
+			}
+		}()
+		defer func() { close(stop2); <-done2 }()
+	}
 	var kept []reflect.Value
 	var banks []*avro.ResourceBank
 	n := 0
